@@ -122,6 +122,14 @@ CHECKS = {
             "Canonicalisation argument: importability depends only on the canonical state because the copied runtime files are identical in every generation; imports are "
             "checked when a canonical state is first reached.",
             "4 C11"),
+    "C10": ("fault_enumeration", "exhaustive single-fault enumeration: every filesystem-mutating event of a generation (numbered through a CPython audit hook) fails once, plus stage-level faults, x force x existing-tree x layout; whole-tree snapshot oracle",
+            "For every configuration (force on/off x existing tree absent / equal / different / partially present / core missing x embedded / sibling / nested core) the fault-free run "
+            "numbers the W mutating filesystem events the generator performs (open-for-write, mkdir, rename, remove, rmtree, ... in the project tree and in its temp dir); "
+            "then every k in 1..W is re-run with an OSError injected at the k-th event, plus faults before/after fetch, load and each emitter. A recursive "
+            "(type,size,sha256,mtime) snapshot of the project root with sentinel files around the packages is compared before/after: non-force runs over an existing "
+            "package must leave it byte- and mtime-identical and succeed only on a match; in every mode writes stay inside package, core and ancestor __init__.py files.",
+            "Faults are whole-operation ENOSPC errors raised before the operation (no torn writes); one fault per run; thorough adds two-run histories (crashed forced run, then non-force run).",
+            "4 C10"),
 }
 
 NOT_YET = {}
